@@ -1,10 +1,13 @@
 (** C02 — content preservation.  Lexeme level: a stored integer is exactly the mathematical value of its literal
     (or the literal is rejected), strings keep their content; the closed obligation that every parsed field is
-    written exactly once.  Whole-document token preservation is tied by the correspondence run and evaluated by the
-    oracle (general proof: the staged frame lemma, see DESIGN.md). *)
+    written exactly once.  Element level, for every grammar: a successful run of the generic parser that reports nothing has
+    consumed exactly the tokens that the writer prints for the value it returns, in the same order
+    (C02_load_then_write_keeps_every_token and its text-level form); children are written in file order. *)
 From Coq Require Import Ascii String List Bool NArith ZArith.
-From A2L Require Import Text.Escape Text.IntText Gram.Spec Gram.WriterTable Gen.SpecShipped Gen.WriterShipped
-     Proofs.EscapeProofs Proofs.IntTextProofs Proofs.GrammarObligations.
+From A2L Require Import Base.StableSort Text.Escape Text.IntText Lex.Tokenizer Gram.Spec A2ml.Types Gram.PState Gram.Parser Gram.Writer
+     Gram.TokWriter Gram.WriterTable Gen.SpecShipped Gen.WriterShipped
+     Proofs.EscapeProofs Proofs.IntTextProofs Proofs.GrammarObligations Proofs.CursorProofs Proofs.RoundTripProofs
+     Proofs.RoundTripOrderProofs Proofs.ParseOrderProofs Proofs.ParseTraceProofs.
 Import ListNotations.
 
 (* decimal literals: whatever get_integer accepts is in the range of the field type - no silent change *)
@@ -37,3 +40,62 @@ Example C02_examples :
   get_integer_text I16 (list_ascii_of_string "0xFFFF") = Some ((-1)%Z, true) /\
   get_integer_text U16 (list_ascii_of_string "65536") = None.
 Proof. repeat split; vm_compute; reflexivity. Qed.
+
+
+(** The direction load -> write for whole elements, for every grammar that meets [spec_ok] (nested field types are plain
+    scalars or structs of plain scalars; a tagged item is a block exactly if its type is).  [reads_as ftab t w]: the written
+    token w stands for the input token t - same type; identifiers verbatim; a string with the same content; a number as the
+    canonical text of the value it was read as.  Conditions: one file, no comment tokens, non-strict mode, the run reports
+    nothing, the value holds no A2ML / IF_DATA element and position restrictions reorder nothing ([good]). *)
+Theorem C02_load_then_write_keeps_every_token : forall S posrs ftab ifuel, spec_ok S = true ->
+  forall f td c off s v s', c_fileid c = O -> Inv s -> ps_ftab s = ftab ->
+    lookup_ty S (t_name td) = Some td -> t_special td = None ->
+    parse_ty f S ifuel td c off s = (ROk v, s') -> ps_log s' = ps_log s -> good S posrs f td v ->
+    exists ts, adv ts s s' /\ traced ftab ts (wtoks S posrs ftab f v ++ closing (is_blockb td) (c_element c)) /\
+               node_at td v s s'.
+Proof. exact parse_then_write. Qed.
+Print Assumptions C02_load_then_write_keeps_every_token.
+
+(* the same from a text: tokenize, parse an element body; the tokens consumed are the tokens written *)
+Theorem C02_text_element_tokens_are_written : forall S posrs ftab ifuel, spec_ok S = true ->
+  forall f td tag line off text toks v s',
+    tokenize_core 0 text = TOk toks -> forallb tok_okb toks = true -> toks <> [] ->
+    lookup_ty S (t_name td) = Some td -> t_special td = None ->
+    parse_ty f S ifuel td (mkCtx tag O line) off (init_state toks false 1 ftab) = (ROk v, s') -> ps_log s' = [] ->
+    goodb S posrs f td v = true ->
+    exists ts, toks = ts ++ ps_after s' /\ traced ftab ts (wtoks S posrs ftab f v ++ closing (is_blockb td) tag).
+Proof. exact text_element_tokens_are_written. Qed.
+Print Assumptions C02_text_element_tokens_are_written.
+
+(* the writer lists the children of a block that the parser built in the order in which they were read *)
+Theorem C02_children_are_written_in_file_order : forall S posrs titems K' P lo, length K' = length titems ->
+  (forall i, nth i K' [] = kids_at i P) ->
+  Forall (fun e : entry => nth_error titems (fst (fst e)) = Some (snd (fst e))) P ->
+  uid_chain lo P ->
+  group_order (kid_entries S posrs titems K') = ssort sort_leb (kid_entries S posrs titems K') ->
+  ordered_kids S posrs titems K' = P.
+Proof. exact ordered_kids_parse_order. Qed.
+Print Assumptions C02_children_are_written_in_file_order.
+
+(* the shipped grammar meets the grammar condition (re-checked whenever the regenerated term changes) *)
+Lemma C02_shipped_grammar_is_covered : spec_ok spec_shipped = true.
+Proof. vm_compute. reflexivity. Qed.
+
+(* the premises are met: the body of a MEASUREMENT with keyword and block children, taken from a text *)
+Definition demo_body : string :=
+  "speed ""vehicle speed"" UWORD cm_speed 1 0.5 0x0 0xFFFF ECU_ADDRESS 0x4000 /begin ANNOTATION ANNOTATION_LABEL ""lbl"" /end ANNOTATION BIT_MASK 255 /end MEASUREMENT".
+Definition demo_ftab : list fentry := [mkFe (list_ascii_of_string "0.5") true 0x3FE0000000000000 (list_ascii_of_string "0.5") (list_ascii_of_string "5e-1") true 0x3FE0000000000000 (list_ascii_of_string "0.5") (list_ascii_of_string "5e-1")].
+Definition demo_check : option (bool * bool * bool * bool * nat) :=
+  match tokenize_core 0 (list_ascii_of_string demo_body), lookup_ty spec_shipped "Measurement" with
+  | TOk toks, Some td =>
+      match parse_ty 6 spec_shipped 6 td (mkCtx (list_ascii_of_string "MEASUREMENT") O 1) 0 (init_state toks false 1 demo_ftab) with
+      | (ROk v, s') =>
+          Some (forallb tok_okb toks, match ps_log s' with [] => true | _ => false end,
+                match t_special td with None => true | Some _ => false end, goodb spec_shipped posr_shipped 6 td v,
+                length (ps_after s'))
+      | _ => None
+      end
+  | _, _ => None
+  end.
+Example C02_premises_are_met : demo_check = Some (true, true, true, true, O).
+Proof. vm_compute. reflexivity. Qed.
